@@ -37,25 +37,24 @@ def _model_to_dict(m):
     return out
 
 
-def solve_text(text, timeout_ms, goal_text=None, tactic=None):
+def solve_text(text, timeout_ms, goal_index=None, tactic=None):
     """runs in the worker"""
     import z3
 
     t0 = time.time()
     ctx = z3.Context()
     try:
-        if goal_text is not None:
-            g = z3.Solver(ctx=ctx)
-            g.from_string(goal_text)
-            neg = z3.simplify(z3.And(*g.assertions()) if len(g.assertions()) != 1 else g.assertions()[0])
-            if z3.is_false(neg):
-                return {"status": "unsat", "trivial": True, "t": time.time() - t0}
         if tactic:
             s = z3.Tactic(tactic, ctx=ctx).solver()
         else:
             s = z3.Solver(ctx=ctx)
         s.set("timeout", int(timeout_ms))
         s.from_string(text)
+        if goal_index is not None:
+            # trivial = the negated goal alone simplifies to false
+            neg = z3.simplify(s.assertions()[goal_index])
+            if z3.is_false(neg):
+                return {"status": "unsat", "trivial": True, "t": time.time() - t0}
         r = s.check()
         res = {"status": str(r), "trivial": False, "t": time.time() - t0}
         if str(r) == "sat":
@@ -72,9 +71,9 @@ def _worker(inq, outq):
         job = inq.get()
         if job is None:
             return
-        qid, text, timeout_ms, goal_text, tactic = job
+        qid, text, timeout_ms, goal_index, tactic = job
         try:
-            res = solve_text(text, timeout_ms, goal_text, tactic)
+            res = solve_text(text, timeout_ms, goal_index, tactic)
         except BaseException as ex:  # noqa
             res = {"status": "error", "reason": repr(ex), "trivial": False, "t": 0.0}
         outq.put((qid, res))
@@ -109,7 +108,7 @@ class Farm:
                     q = pending.pop()
                     w["job"] = q
                     w["t0"] = time.time()
-                    w["in"].put((q["id"], q["text"], int(q.get("timeout_s", 60) * 1000), q.get("goal_text"), q.get("tactic")))
+                    w["in"].put((q["id"], q["text"], int(q.get("timeout_s", 60) * 1000), q.get("goal_index"), q.get("tactic")))
                     active += 1
             time.sleep(0.002)
             for k, w in enumerate(self.procs):
